@@ -13,6 +13,7 @@ import (
 	"runtime/debug"
 	"sort"
 	"strings"
+	"sync"
 
 	"github.com/antlr4-go/antlr/v4"
 	gen "github.com/xinchentechnote/fin-protoc/internal/grammar"
@@ -48,6 +49,12 @@ func (p *Panic) TopFrame() string {
 	return "?"
 }
 
+// repoMu serialises every call into the repository's own code inside one checker process. fin-protoc is a
+// single-goroutine tool; the checker's worker goroutines must not create concurrency the code under test never
+// promised to survive (a package-level cache that is perfectly fine for the command line would otherwise crash
+// the checker with "concurrent map read and map write").
+var repoMu sync.Mutex
+
 func guard(err *error) {
 	if r := recover(); r != nil {
 		*err = &Panic{Value: fmt.Sprint(r), Stack: string(debug.Stack())}
@@ -56,6 +63,8 @@ func guard(err *error) {
 
 // Format is parser.FormatPacketDsl.
 func Format(text string) (out string, err error) {
+	repoMu.Lock()
+	defer repoMu.Unlock()
 	defer guard(&err)
 	return parser.FormatPacketDsl(text)
 }
@@ -73,6 +82,8 @@ type Model struct {
 
 // ParseFile is parser.ParseFile (the path cmd/compile.go takes).
 func ParseFile(path string) (m *Model, diags []Diag, err error) {
+	repoMu.Lock()
+	defer repoMu.Unlock()
 	defer guard(&err)
 	res, e := parser.ParseFile(path)
 	if e != nil {
@@ -98,6 +109,8 @@ func ParseText(path, text string) (*Model, []Diag, error) {
 
 // Generate runs exactly the closure cmd/compile.go runs for lang.
 func Generate(m *Model, lang string) (files map[string][]byte, err error) {
+	repoMu.Lock()
+	defer repoMu.Unlock()
 	defer guard(&err)
 	bm := m.M
 	switch lang {
@@ -197,6 +210,8 @@ func (c *countingListener) SyntaxError(recognizer antlr.Recognizer, offendingSym
 
 // ParserOK reports whether the parser alone (the repository's own notion) accepts text.
 func ParserOK(text string) (ok bool, err error) {
+	repoMu.Lock()
+	defer repoMu.Unlock()
 	defer guard(&err)
 	p, _, e := parser.NewPacketDslParserByContent(text)
 	if e != nil {
